@@ -355,6 +355,30 @@ def rule_A1(tree: Tree) -> RuleResult:
                                 f"an exception from {fk} ({cls}: {FAULT[cls]}; e.g. `{s0.text}` line {s0.line}, {len(ss)} site(s)) can leave an iteration of the "
                                 f"{lname} of run(): one damaged or keyless flow aborts the whole run", run.module.line(loop),
                                 es.chain(run, s0)))
+    # process termination: SystemExit passes every `except Exception`; the only place that may end the run is the usage error "key-log file given
+    # with -s does not exist" (one frozen instance, before any packet is read). Data-dependent termination (empty key log, odd block, …) aborts the
+    # export of every flow.
+    r.instances += 1
+    EXIT_CALLS = ("exit", "quit", "sys.exit", "os._exit", "os.abort", "os.kill")
+    bad = []
+    n_ok = 0
+    for f in tree.all_funcs():
+        if f.module.short in ("log", "about"):
+            continue
+        cfgf = None
+        for c in body_walk(f.node):
+            if isinstance(c, ast.Call) and (dotted(c.func) or "") in EXIT_CALLS:
+                cfgf = cfgf or cfg_of(f.node)
+                facts = [(src(e), t) for e, t in cfgf.facts_at(cfgf.node_of(c))]
+                if f.key == "keylog_reader:read_keylog_from_file" and facts == [("os.path.exists(path)", False)]:
+                    n_ok += 1
+                    continue
+                bad.append(f"{f.key}: `{src(c, 30)}` under {[s_ for s_, t in facts][:2]}")
+        for n in body_walk(f.node):
+            if isinstance(n, ast.Raise) and n.exc is not None and (dotted(n.exc.func if isinstance(n.exc, ast.Call) else n.exc) or "") in ("SystemExit", "KeyboardInterrupt"):
+                bad.append(f"{f.key}: `{src(n, 40)}`")
+    r.ob(not bad, Finding("A1", "tlexport:process-exit", f"flow code terminates the process: {bad[:3]} — SystemExit is not caught by the per-packet / per-session handlers, "
+                                                        f"so what one input makes happen ends the export of all flows", "tlexport/"))
     # the loop iterator itself (reader) is outside the claim; listed for the reader
     return r
 
